@@ -110,7 +110,8 @@ func init() {
 	ext("crypto/md5.Sum", func(fr *frame, args []value) value {
 		bs := strSlice(args[0])
 		if !allConcrete(bs) {
-			panic(inconclusive{"md5 of symbolic bytes"})
+			// uninterpreted function with functional consistency (equal inputs => equal outputs)
+			return array(fr.i.run.ufBytes("md5", bs, 16))
 		}
 		h := md5.Sum(nativeBytes(bs))
 		out := make(array, 16)
@@ -122,7 +123,7 @@ func init() {
 	ext("(*encoding/base64.Encoding).EncodeToString", func(fr *frame, args []value) value {
 		bs := strSlice(args[1])
 		if !allConcrete(bs) {
-			panic(inconclusive{"base64 of symbolic bytes"})
+			return mkString(fr.i.run.ufBytes("base64", bs, (len(bs)+2)/3*4))
 		}
 		return base64.StdEncoding.EncodeToString(nativeBytes(bs))
 	})
@@ -203,4 +204,33 @@ func init() {
 		}
 		return "t" + strconv.FormatInt(asInt64(ns), 10)
 	})
+}
+
+type ufCall struct {
+	in, out []value
+}
+
+// ufBytes applies an uninterpreted byte-string function: fresh symbolic output
+// bytes, constrained to equal the output of every earlier application to an
+// equal input (Ackermann expansion). Nothing else is assumed about the function.
+func (r *Run) ufBytes(name string, in []value, outLen int) []value {
+	if r.ufCalls == nil {
+		r.ufCalls = map[string][]ufCall{}
+	}
+	out := make([]value, outLen)
+	for k := range out {
+		out[k] = &Sym{T: r.fresh("$"+name, 8), Kind: types.Uint8}
+	}
+	for _, c := range r.ufCalls[name] {
+		if len(c.in) != len(in) {
+			continue
+		}
+		same := bytesEqTerm(c.in, in)
+		if same.isFalse() {
+			continue
+		}
+		r.addPC(mkImplies(same, bytesEqTerm(c.out, out)))
+	}
+	r.ufCalls[name] = append(r.ufCalls[name], ufCall{in: append([]value{}, in...), out: out})
+	return out
 }
